@@ -17,8 +17,14 @@ RULE = ("random operation histories of length <= 12 over {update(tle, source), c
         "that duplicates, out-of-order arrival and with/without-fraction texts meet; several sources and several texts per "
         "(satellite, epoch); for a part of the base histories EVERY update is additionally replaced by a crash after "
         "k = 0..3 committed statements, both before the next statement and inside its transaction; every history runs "
-        "against a real SQLite file in a temporary directory; distinct = the history itself, non-trivial = at least one "
-        "row stored")
+        "against a real SQLite file in a temporary directory; driver histories: 1-3 invocations of fetch_tles.run() on "
+        "one database file, each with its own YAML configuration listing a random non-empty subset of the downloaders "
+        "(fetch_plain_tle with 1-3 named sources x 1-2 URIs, fetch_spacetrack, read_tle_files, read_xml_admin_messages) in "
+        "EVERY order, `requests` interposed (no network; failing status codes included), deliveries drawn from a pool of "
+        "entries with shared epochs (whole-day, +1e-8 day, half day, neighbouring day, other year; two texts per epoch; "
+        "unconfigured satellites), judged on the rows (epoch, first-seen text, first-seen source = the name under which the "
+        "driver stores the first delivery in the order it visits downloaders, sources, URIs and entries) and on the export "
+        "of every run; distinct = the history itself, non-trivial = at least one row stored")
 ASSUMPTIONS = [
     "SQLite is abstracted as a map table -> rows with a primary key; one `with self.db:` block = one atomic committed "
     "statement (journal atomicity of SQLite itself is trusted)",
@@ -482,6 +488,301 @@ def check_history(hist, workdir):
     return bad
 
 
+# ---------------------------------------------------------------- histories through the fetch_tles.run() driver
+DRIVER_KINDS = ["fetch_plain_tle", "fetch_spacetrack", "read_tle_files", "read_xml_admin_messages"]
+PLAIN_SOURCES = ["celestrak", "spacetrack", "file", "https://example.org/weather.txt", "süd", "amateur"]
+
+
+def _driver_entry_pool(rng, sats):
+    """{sat: [(l1, l2)]}: per satellite several epochs of one cluster (whole day, +1e-8 day, half day, next day, other year),
+    up to two different texts per epoch"""
+    yy = rng.choice([0, 8, 23, 24, 56, 57, 99])
+    day = rng.randrange(2, 364)
+    fields = [(yy, "%03d.00000000" % day), (yy, "%03d.00000001" % day), (yy, "%03d.50000000" % day),
+              (yy, "%03d.99999999" % (day - 1)), (yy, "%03d.00000000" % (day + 1)), (yy, "%03d.%08d" % (day, rng.randrange(1, 10 ** 8))),
+              (rng.choice([1, 22, 98]), "%03d.%08d" % (rng.randrange(1, 366), rng.randrange(0, 10 ** 8)))]
+    pool = {}
+    for sat in sats:
+        eps = rng.sample(fields, rng.randrange(2, 5))
+        out = []
+        for (y, d) in eps:
+            for _ in range(rng.choice([1, 2])):
+                _, l1, l2 = tlegen.random_tle(rng, "leo", {"satnum": rng.choice(["%05d", "%5d"]) % sat, "epoch_year": "%02d" % y, "epoch_day": d})
+                out.append((l1, l2))
+        pool[sat] = out
+    return pool
+
+
+def gen_driver_history(ctx):
+    rng = ctx.rng
+    pool_p = list(POOL)
+    rng.shuffle(pool_p)
+    ncfg = rng.randrange(1, 5)
+    platforms = pool_p[:ncfg]
+    unconf = [s for s, _ in pool_p[ncfg:ncfg + 2]]
+    sats = [s for s, _ in platforms]
+    entries = _driver_entry_pool(rng, sats + unconf)
+
+    def delivery(lo=0):
+        out = []
+        for _ in range(rng.randrange(lo, 5)):
+            sat = rng.choice(unconf) if (unconf and rng.random() < 0.12) else rng.choice(sats)
+            out.append(list(rng.choice(entries[sat])))
+        return out
+
+    runs = []
+    for _ in range(rng.choice([1, 1, 2, 2, 3])):
+        kinds = list(DRIVER_KINDS)
+        rng.shuffle(kinds)                       # every order of the downloaders
+        kinds = kinds[:rng.choice([1, 2, 2, 3, 3, 4])]
+        dls = []
+        for kind in kinds:
+            if kind == "fetch_plain_tle":
+                names = rng.sample(PLAIN_SOURCES, rng.randrange(1, 4))
+                dls.append([kind, [[nm, [[rng.choice([200, 200, 200, 200, 404, 500]), delivery(), int(rng.random() < 0.5)]
+                                         for _ in range(rng.randrange(1, 3))]] for nm in names]])
+            elif kind == "fetch_spacetrack":
+                dls.append([kind, {"login": rng.choice([200, 200, 200, 401]), "query": rng.choice([200, 200, 200, 500]),
+                                   "entries": delivery(), "names": int(rng.random() < 0.3)}])
+            elif kind == "read_tle_files":
+                dls.append([kind, [[delivery(), int(rng.random() < 0.5)] for _ in range(rng.randrange(1, 3))]])
+            else:
+                dls.append([kind, [delivery() for _ in range(rng.randrange(1, 3))]])
+        runs.append({"write_always": int(rng.random() < 0.3), "write_name": int(rng.random() < 0.5), "downloaders": dls})
+    return {"driver": True, "platforms": [[s, n] for s, n in platforms], "runs": runs}
+
+
+def _body(conf, entries, with_names):
+    lines = []
+    for (l1, l2) in entries:
+        if with_names:
+            lines.append(conf.get(_satnum(l1), "OBJECT %d" % _satnum(l1)))
+        lines += [l1, l2]
+    return "".join(x + "\n" for x in lines)
+
+
+def _satnum(l1):
+    return int(l1[2:7])
+
+
+def _xml_doc(entries):
+    s = ['<?xml version="1.0" encoding="UTF-8"?>', "<multi-mission-administrative-message>", "<message>", "<two-line-elements>"]
+    for (l1, l2) in entries:
+        s += ["<navigation>", "<line-1>" + l1 + "</line-1>", "<line-2>" + l2 + "</line-2>", "</navigation>"]
+    s += ["</two-line-elements>", "</message>", "</multi-mission-administrative-message>"]
+    return "\n".join(s)
+
+
+class _Reply(object):
+    def __init__(self, status, text):
+        self.status_code, self.text, self.content, self.ok = status, text, text.encode("utf-8"), status < 400
+
+
+class _NoNetwork(object):
+    """requests.get answers from a table uri -> (status, body); requests.Session logs in and answers its query with the given
+    statuses and body; anything else is refused.  No network."""
+
+    def __init__(self, table, session):
+        import requests
+        self.rq, self.table, self.session = requests, table, session
+
+    def __enter__(self):
+        rq, me = self.rq, self
+        self.saved = (rq.get, rq.post, rq.Session, rq.request)
+
+        def fake_get(url, **kw):
+            st, body = me.table[url]
+            return _Reply(st, body)
+
+        class FakeSession(object):
+            def __init__(self, *a, **k):
+                pass
+
+            def __enter__(self):
+                return self
+
+            def __exit__(self, *a):
+                return False
+
+            def close(self):
+                pass
+
+            def post(self, url, data=None, **kw):
+                return _Reply(me.session[0], "")
+
+            def get(self, url, **kw):
+                return _Reply(me.session[1], me.session[2])
+
+        def refuse(*a, **k):
+            raise RuntimeError("unexpected network request")
+
+        rq.get, rq.post, rq.Session, rq.request = fake_get, refuse, FakeSession, refuse
+        return self
+
+    def __exit__(self, *a):
+        rq = self.rq
+        rq.get, rq.post, rq.Session, rq.request = self.saved
+        return False
+
+
+def _epoch_of(l1, l2):
+    from pyorbital import tlefile
+    return tlefile.Tle("", line1=l1, line2=l2).epoch.item()
+
+
+def check_driver_history(hist, workdir):
+    """1-3 invocations of fetch_tles.run() on one database.  The reference (plain dicts) follows the statement: one row per
+    distinct (configured satellite, epoch) with the first-seen text and source, in the order the driver visits downloaders
+    (configuration order), sources, URIs / files and entries; the source of a delivery is the configured name for plain-text
+    sources, "spacetrack" for Space-Track and "file" for local files and XML admin messages.  Returns a list of
+    (kind, observed, required, site)."""
+    import logging
+    import sys
+    import yaml
+    from pyorbital import fetch_tles
+    bad = []
+    conf = {int(s): n for s, n in hist["platforms"]}
+    order = [int(s) for s, _ in hist["platforms"]]
+    dbpath = os.path.join(workdir, "tles.db")
+    ref = {}
+    for ri, run in enumerate(hist["runs"]):
+        rdir = os.path.join(workdir, "run%d" % ri)
+        os.makedirs(rdir)
+        odir = os.path.join(rdir, "out")
+        table, session = {}, (200, 200, "")
+        dl_cfg = {}
+        visits = []                 # (l1, l2, source) in the order the driver meets them
+        for di, (kind, spec) in enumerate(run["downloaders"]):
+            if kind == "fetch_plain_tle":
+                cfg = {}
+                for si, (name, uris) in enumerate(spec):
+                    cfg[name] = []
+                    for ui, (status, ents, with_names) in enumerate(uris):
+                        uri = "https://example.invalid/r%d/s%d/u%d.txt" % (ri, si, ui)
+                        cfg[name].append(uri)
+                        table[uri] = (status, _body(conf, ents, with_names) if status == 200 else "Not here\n")
+                        if status == 200:
+                            visits += [(l1, l2, name) for (l1, l2) in ents]
+                dl_cfg[kind] = cfg
+            elif kind == "fetch_spacetrack":
+                session = (spec["login"], spec["query"], _body(conf, spec["entries"], spec["names"]) if spec["query"] == 200 else "error\n")
+                dl_cfg[kind] = {"user": "someone", "password": "secret"}
+                if spec["login"] == 200 and spec["query"] == 200:
+                    visits += [(l1, l2, "spacetrack") for (l1, l2) in spec["entries"]]
+            elif kind == "read_tle_files":
+                paths = []
+                for fi, (ents, with_names) in enumerate(spec):
+                    path = os.path.join(rdir, "local%d.tle" % fi)
+                    with open(path, "w") as f:
+                        f.write(_body(conf, ents, with_names))
+                    # a pattern matching exactly this file, or the path itself
+                    paths.append(os.path.join(rdir, "local%d.t*" % fi) if (fi + ri) % 2 else path)
+                    visits += [(l1, l2, "file") for (l1, l2) in ents]
+                dl_cfg[kind] = {"paths": paths}
+            elif kind == "read_xml_admin_messages":
+                paths = []
+                for fi, ents in enumerate(spec):
+                    path = os.path.join(rdir, "admin%d.xml" % fi)
+                    with open(path, "w") as f:
+                        f.write(_xml_doc(ents))
+                    paths.append(path)
+                    visits += [(l1, l2, "file") for (l1, l2) in ents]
+                dl_cfg[kind] = {"paths": paths}
+            else:
+                raise ValueError(kind)
+        config = {"logging": {"version": 1, "disable_existing_loggers": False, "handlers": {"null": {"class": "logging.NullHandler"}},
+                              "root": {"handlers": ["null"], "level": "CRITICAL"}},
+                  "database": {"path": dbpath},
+                  "platforms": {int(s): n for s, n in hist["platforms"]},
+                  "text_writer": {"output_dir": odir, "filename_pattern": "tle_%Y%m%d_%H%M%S.%f.txt",
+                                  "write_name": bool(run["write_name"]), "write_always": bool(run["write_always"])},
+                  "downloaders": dl_cfg}
+        cfg_file = os.path.join(rdir, "config.yaml")
+        with open(cfg_file, "w", encoding="utf-8") as f:
+            yaml.safe_dump(config, f, sort_keys=False, allow_unicode=True)
+        # reference
+        added = False
+        for (l1, l2, src) in visits:
+            sat, ep = _satnum(l1), _epoch_of(l1, l2)
+            if sat in conf and (sat, ep) not in ref:
+                ref[(sat, ep)] = (l1 + "\n" + l2, src)
+                added = True
+        # the driver
+        argv, level, handlers = sys.argv, logging.getLogger().level, list(logging.getLogger().handlers)
+        failed = None
+        try:
+            sys.argv = ["fetch_tles.py", cfg_file]
+            with _NoNetwork(table, session):
+                fetch_tles.run()
+        except Exception as e:  # noqa
+            failed = "%s: %s" % (type(e).__name__, e)
+        finally:
+            sys.argv = argv
+            logging.getLogger().setLevel(level)
+            logging.getLogger().handlers[:] = handlers
+        if failed:
+            bad.append(("exception", {"run": ri, "exception": failed}, "no exception", "fetch_tles.run"))
+            break
+        tables, names = read_db(dbpath)
+        got = {}
+        for sat, rows in tables.items():
+            for (e, t, s_) in rows:
+                got.setdefault((sat, dt.datetime.fromisoformat(e)), []).append((t, s_))
+        want = {k: [v] for k, v in ref.items()}
+        if got != want:
+            diff = sorted(str(k) for k in set(got) | set(want) if got.get(k) != want.get(k))
+            bad.append(("rows", {"after_run": ri, "differing": diff, "rows": sorted((str(k), v) for k, v in got.items())},
+                        {"rows": sorted((str(k), v) for k, v in want.items())}, "fetch_tles.run"))
+        extra = [s_ for s_ in tables if s_ not in conf] + [s_ for s_, _ in (names or []) if s_ not in conf]
+        if extra:
+            bad.append(("unconfigured_stored", {"after_run": ri, "satellites": extra}, "nothing stored", "fetch_tles.run"))
+        files = sorted(os.listdir(odir)) if os.path.isdir(odir) else []
+        text = None
+        if files:
+            with open(os.path.join(odir, files[0]), "rb") as f:
+                text = f.read().decode("utf-8")
+        if not added and not run["write_always"]:
+            if files:
+                bad.append(("export_when_clean", {"run": ri, "file": text}, "no file", "fetch_tles.run"))
+        else:
+            data = []
+            for sat in order:
+                eps = [e for (s_, e) in ref if s_ == sat]
+                if not eps:
+                    continue
+                if run["write_name"]:
+                    data.append(conf[sat])
+                data.append(ref[(sat, max(eps))][0])
+            if len(files) != 1 or text != "\n".join(data):
+                bad.append(("export_content", {"run": ri, "files": files, "file": text}, {"file": "\n".join(data)}, "fetch_tles.run"))
+        if bad:
+            break
+    return bad, len(ref)
+
+
+def oracle_driver(ctx):
+    n = ctx.size(220, 3000)
+    root = tempfile.mkdtemp(prefix="pv-c15d-")
+    try:
+        for j in range(n):
+            h = gen_driver_history(ctx)
+            wd = os.path.join(root, "d%05d" % j)
+            os.makedirs(wd)
+            bad, nrows = check_driver_history(h, wd)
+            shutil.rmtree(wd, ignore_errors=True)
+            ctx.count("eval_oracle_driver_histories")
+            ctx.bump("driver_runs", len(h["runs"]))
+            for run in h["runs"]:
+                ctx.bump("driver_downloader_order", ">".join(k[0].replace("read_", "").replace("fetch_", "")[:5] for k in run["downloaders"]))
+            ctx.bump("driver_rows_at_end", min(nrows, 9))
+            if nrows:
+                ctx.distinct(json.dumps(h, sort_keys=True))
+            for (kind, obs, req, site) in bad[:1]:
+                ctx.violation(kind, h, obs, req, site=site)
+    finally:
+        shutil.rmtree(root, ignore_errors=True)
+
+
 def oracle(ctx):
     n = ctx.size(300, 4000)
     root = tempfile.mkdtemp(prefix="pv-c15o-")
@@ -497,6 +798,7 @@ def oracle(ctx):
                 ctx.violation(kind, h, obs, req, site=site)
     finally:
         shutil.rmtree(root, ignore_errors=True)
+    oracle_driver(ctx)
 
 
 def match_known(entry, v):
@@ -510,6 +812,22 @@ def replay(ctx, case):
     if hist is None:
         print("no history recorded in this replay file")
         return 1
+    if hist.get("driver"):
+        print("platforms:", hist["platforms"])
+        for ri, run in enumerate(hist["runs"]):
+            print("  run %d: write_always=%s write_name=%s" % (ri, run["write_always"], run["write_name"]))
+            for kind, spec in run["downloaders"]:
+                print("    %s: %s" % (kind, json.dumps(spec, ensure_ascii=False)[:400]))
+        wd = tempfile.mkdtemp(prefix="pv-c15r-")
+        try:
+            bad, _ = check_driver_history(hist, wd)
+        finally:
+            shutil.rmtree(wd, ignore_errors=True)
+        for (kind, obs, req, site) in bad:
+            print("VIOLATES %s at %s\n  observed: %s\n  required: %s" % (kind, site, json.dumps(lib.jsonable(obs), ensure_ascii=False)[:900],
+                                                                          json.dumps(lib.jsonable(req), ensure_ascii=False)[:900]))
+        print("statement holds on this driver history" if not bad else "statement violated on this driver history")
+        return 1 if bad else 0
     print("platforms:", hist["platforms"])
     for i, op in enumerate(hist["ops"]):
         print("  op %2d: %s" % (i, op))
